@@ -239,7 +239,8 @@ func TestEntryDecoder(t *testing.T) {
 	rep.Replayed = len(cases)
 	n := vh.EnvInt("VERIF_MUTATIONS", 4000)
 	rng := vh.Rand(1201)
-	bases := []string{"x509", "precert", "precertPreIssuer", "x509EmptyChain", "x509WithExt"}
+	bases := []string{"x509", "precert", "precertPreIssuer", "x509EmptyChain", "x509WithExt",
+		"x509Cert_laxOnly_none", "precertTBS_laxOnly_none", "x509Cert_strict_none", "precertTBS_strict_none"}
 	accepted := 0
 	for i := 0; i < n; i++ {
 		b := shared.Entries[bases[rng.Intn(len(bases))]]
